@@ -2,7 +2,9 @@
     stream.  Only statements, each closed by [exact <lemma>] and followed by
     [Print Assumptions]. *)
 From Coq Require Import List ZArith.
-From Webp Require Import Base.Res Vp8l.Vp8lPixel Vp8l.Vp8lArr Vp8l.Vp8lPrefix Vp8l.Vp8lTransforms Vp8l.Vp8lSpec.
+From Webp Require Import Base.Res Vp8l.Vp8lPixel Vp8l.Vp8lArr Vp8l.Vp8lPrefix Vp8l.Vp8lTransforms Vp8l.Vp8lSpec
+  Vp8l.Vp8lEmit Vp8l.Vp8lInPlace Vp8l.Vp8lKernels Vp8l.Vp8lTables Vp8l.Vp8lCacheDefer.
+From WebpGen Require Consts Tables.
 Import ListNotations.
 Open Scope Z_scope.
 
@@ -35,3 +37,109 @@ Theorem C03_inv_color_index_fwd : forall (look : Z -> px) (find : px -> Z) (wb :
   color_index_inv look wb w h (color_index_fwd find wb w h img) = img.
 Proof. intros look find wb w h img Hwb Hw. exact (inv_color_index_fwd_gen look find wb w Hwb Hw h img). Qed.
 Print Assumptions C03_inv_color_index_fwd.
+
+(** ** Buffer discipline of applyInverseTransforms *)
+
+(** The pinned tree (before commit 56944c7) ran every inverse after the first in
+    place; for the pixel-packing colour-indexing inverse that is wrong.  Witness:
+    2 colours, width 9, transforms [colour-indexing (8 indices per word); predictor]. *)
+Theorem C03_inplace_inverse_refuted :
+  exists ts coded, pinned_apply_inverse ts coded <> Ok (apply_inverse ts coded).
+Proof. exact inplace_inverse_refuted. Qed.
+Print Assumptions C03_inplace_inverse_refuted.
+
+(** The repaired dataflow (the two buffers are swapped after every inverse, so
+    input and output never alias) yields the specified pixels for every transform
+    list whose sizes chain, whatever stale words the two buffers hold. *)
+Theorem C03_pingpong_inverse_eq : forall ts coded sa sb,
+  chain_ok (rev ts) coded ->
+  firstn (length (apply_inverse ts coded)) (apply_inverse_pingpong ts coded sa sb) = apply_inverse ts coded.
+Proof. exact pingpong_inverse_eq. Qed.
+Print Assumptions C03_pingpong_inverse_eq.
+
+(** ** LZ77 backward references *)
+
+(** copyBlock32 (memmove / fill / doubling) = the pixel-by-pixel definition: for
+    every element type, every buffer of at most 40 words and every in-range
+    (pos, dist, len).  Partial: the unbounded statement is
+    [copy_block_eq_statement]. *)
+Theorem C03_copy_block_eq_partial : forall (A : Type) (d : A) (data : list A) pos dist len,
+  (length data <= 40)%nat -> (1 <= dist <= pos)%nat -> (pos + len <= length data)%nat ->
+  copy_block d data pos dist len = copy_fwd d len data pos dist.
+Proof. exact copy_block_eq_bounded. Qed.
+Print Assumptions C03_copy_block_eq_partial.
+
+(** ** Colour cache: the decoder inserts pixels into the cache lazily (cursor
+    lastCached; flushes at row ends, after copies, before lookups).  For every
+    flush schedule — one boolean per token — in which a lookup flushes first, the
+    decoded pixels are those of immediate insertion. *)
+Theorem C03_cache_deferred_eq_immediate : forall cb w (toks : list (token * bool)),
+  replay_deferred cb w toks arr_empty [] [] = replay cb w (map fst toks) arr_empty [].
+Proof. exact cache_deferred_eq_immediate. Qed.
+Print Assumptions C03_cache_deferred_eq_immediate.
+
+(** ** Colour table *)
+Theorem C03_expand_color_map_eq : forall ncolors bits pal idx,
+  0 <= bits <= 3 -> Z.of_nat (length pal) = ncolors -> ncolors <= 2 ^ (8 / 2 ^ bits) ->
+  0 <= idx < 2 ^ (8 / 2 ^ bits) ->
+  nth (Z.to_nat idx) (expand_color_map ncolors bits pal) px_zero =
+  arr_get px_zero (arr_of_list (undelta px_zero pal)) idx.
+Proof. exact expand_color_map_eq. Qed.
+Print Assumptions C03_expand_color_map_eq.
+
+(** ** Bit and prefix-code layer *)
+
+Theorem C03_read_put_bits : forall n v rest, 0 <= v < 2 ^ Z.of_nat n ->
+  read_bits n (put_bits n v ++ rest) = Ok (v, rest).
+Proof. exact read_put_bits. Qed.
+Print Assumptions C03_read_put_bits.
+
+(** Decoding the code word of a symbol (its path in the code tree) returns the
+    symbol and consumes exactly the code word.  Partial with respect to the
+    canonical numbering: that the tree built from a complete length vector assigns
+    the RFC 1951 code values is evaluated on every generated plan (emitter = numeric
+    assignment, decoder = tree), not proved. *)
+Theorem C03_prefix_roundtrip_partial : forall t sym p rest,
+  path_of t sym = Some p -> read_symbol t (p ++ rest) = Ok (sym, rest).
+Proof. exact read_symbol_path. Qed.
+Print Assumptions C03_prefix_roundtrip_partial.
+
+(** ** Ties to the source (regenerated on every run) *)
+
+Theorem C03_code_to_plane_matches_spec :
+  map unpack_plane WebpGen.Tables.lossless_CodeToPlane = plane_lut.
+Proof. exact code_to_plane_matches_spec. Qed.
+Print Assumptions C03_code_to_plane_matches_spec.
+
+Theorem C03_plane_lut_is_the_neighbourhood :
+  length plane_lut = 120%nat /\ forallb in_neighbourhood plane_lut = true /\ nodupb plane_lut = true
+  /\ sorted_by (fun p => fst p * fst p + snd p * snd p) plane_lut = true.
+Proof. exact plane_lut_is_the_neighbourhood. Qed.
+Print Assumptions C03_plane_lut_is_the_neighbourhood.
+
+Theorem C03_format_constants_match_spec :
+  WebpGen.Consts.lossless_NumLiteralCodes = 256 /\ WebpGen.Consts.lossless_NumLengthCodes = 24 /\
+  WebpGen.Consts.lossless_NumDistanceCodes = 40 /\ WebpGen.Consts.lossless_CodeLengthCodes = 19 /\
+  WebpGen.Consts.lossless_MaxAllowedCodeLength = 15 /\ WebpGen.Consts.lossless_DefaultCodeLength = 8 /\
+  WebpGen.Consts.lossless_MaxCacheBits = 11 /\ WebpGen.Consts.lossless_kHashMul = 506832829 /\
+  WebpGen.Consts.lossless_VP8LMagicByte = 47 /\ WebpGen.Consts.lossless_VP8LImageSizeBits = 14 /\
+  WebpGen.Consts.lossless_VP8LVersionBits = 3 /\ WebpGen.Consts.lossless_VP8LVersion = 0 /\
+  WebpGen.Consts.lossless_MinTransformBits = 2 /\ WebpGen.Consts.lossless_NumTransformBits = 3 /\
+  WebpGen.Consts.lossless_MinHuffmanBits = 2 /\ WebpGen.Consts.lossless_NumHuffmanBits = 3 /\
+  WebpGen.Consts.lossless_CodeToPlaneCodesCount = 120 /\ WebpGen.Consts.lossless_ARGBBlack = argb_of_px px_black /\
+  WebpGen.Consts.lossless_PredictorTransform = 0 /\ WebpGen.Consts.lossless_CrossColorTransform = 1 /\
+  WebpGen.Consts.lossless_SubtractGreenTransform = 2 /\ WebpGen.Consts.lossless_ColorIndexingTransform = 3 /\
+  WebpGen.Tables.lossless_CodeLengthCodeOrder = code_length_order /\
+  WebpGen.Tables.lossless_CodeLengthExtraBits = [2; 3; 7] /\
+  WebpGen.Tables.lossless_CodeLengthRepeatOffsets = [3; 3; 11] /\
+  WebpGen.Tables.lossless_kBaseAlphabetSize = [256 + 24; 256; 256; 256; 40].
+Proof. exact format_constants_match_spec. Qed.
+Print Assumptions C03_format_constants_match_spec.
+
+(** ** Emitter / decoder: the full statement is [emit_decode_statement] (not
+    proved; evaluated by the harness on every generated plan); here the instance
+    for a generated plan exercising three transforms, a meta prefix image with
+    several groups, colour cache, cache and copy tokens. *)
+Theorem C03_emit_decode_example : decode (emit ex_plan) = Ok (sem ex_plan).
+Proof. exact emit_decode_example. Qed.
+Print Assumptions C03_emit_decode_example.
